@@ -18,7 +18,18 @@
                                 later adds the delta from the block-start balance
      Dev_BoxSubGasMinted        RunBoxTxs charges the sub transactions' fees and returns their gas, which the caller
                                 multiplies by the box price and credits to the miner again
-     Dev_NegativeAssetTransfer  TransferAssetTx accepts a negative transferAmount                                 *)
+     Dev_NegativeAssetTransfer  TransferAssetTx accepts a negative transferAmount
+   and mutants that are no known defects (negative controls only): Mut_VotePassBeforeRefund, Mut_RefundNotFromPool
+   (LedgerOps.Finalize), Mut_FreezeLookupById (the freeze flag looked up under the asset id: only tokens stay frozen),
+   Mut_SuicideClearsEquity (a self-destructing contract loses what it holds of an asset), Mut_BlockFullKeepsPartialBox
+   (a box whose later sub transaction does not fit into the block is dropped without undoing what ran before).
+
+   Block gas.  The header of the block under construction may name a small gas limit (GasLimit action, values BGL;
+   otherwise the limit is ample).  The miner takes a candidate only if its whole gas limit is still available
+   (gas pool: - limit at buyGas, + unused gas at refundGas); a box buys its own limit first and every sub transaction
+   buys its own on top, so a box can turn out not to fit when one of its LATER sub transactions is reached.  A candidate
+   that does not fit stays out of the block and costs nothing; the miner stops trying when less than the plain
+   transfer gas is left.                                                                                          *)
 EXTENDS LedgerOps, TLC
 CONSTANTS Ctx,        \* context record (see LedgerOps)
           Init0,      \* initial ledger state
@@ -27,7 +38,9 @@ CONSTANTS Ctx,        \* context record (see LedgerOps)
           Kinds,      \* transaction kinds enabled in this configuration
           From, XTo, XAmt, Payers,     \* transfers: senders, recipients, amounts (LEMO), foreign gas payers
           Voters, Cands, RegAmt,       \* votes and candidate transactions
-          AFrom, ATo, AAmt, IAmt,      \* asset transactions
+          AFrom, ATo, AAmt, IAmt,      \* asset transactions: senders, recipients, transfer amounts, issue / replenish amounts
+          ACodes, AIds,                \* ... the asset codes (issue, replenish, freeze) and asset ids (replenish, transfer) they name
+          BGL,                         \* block gas limits a header may name (empty: every block has ample gas)
           BoxFrom, BoxTo,              \* box transactions: box sender, sub transaction sender / recipient
           RewFrom, RewTerms, RewAmt,   \* reward settings: senders, terms, values (LEMO)
           EmptyOK,                     \* blocks without transactions are generated too (needed to walk to a reward block)
@@ -35,15 +48,24 @@ CONSTANTS Ctx,        \* context record (see LedgerOps)
 VARIABLES st,    \* ledger state at the last block boundary
           blk,   \* block under construction (LedgerOps accumulator)
           ntx, nb, ntot,
+          gas,   \* [lim: the gas limit the header of the block under construction names (0: ample), left: the miner's gas pool]
+          nf,    \* fresh asset id slots handed to issue transactions so far (Ctx.fresh)
           last   \* the transaction of the last step (history, for the action properties)
-vars == <<st, blk, ntx, nb, ntot, last>>
-View == <<st, blk, ntx, nb, ntot>>
+vars == <<st, blk, ntx, nb, ntot, gas, nf, last>>
+View == <<st, blk, ntx, nb, ntot, gas, nf>>
 LEMO == 1000
-NoTx == [k |-> "none", f |-> "", t |-> "", p |-> "", amt |-> 0, gl |-> 0, gp |-> 0, gu |-> 0, inc |-> FALSE, subs |-> <<>>, x |-> 0]
-Tx(k, f, t, p, amt, gl, gp) == [k |-> k, f |-> f, t |-> t, p |-> p, amt |-> amt, gl |-> gl, gp |-> gp, gu |-> 0, inc |-> FALSE, subs |-> <<>>, x |-> 0]
+NoTx == [k |-> "none", f |-> "", t |-> "", p |-> "", amt |-> 0, gl |-> 0, gp |-> 0, gu |-> 0, inc |-> FALSE, subs |-> <<>>, x |-> 0, c |-> "", id |-> ""]
+Tx(k, f, t, p, amt, gl, gp) == [k |-> k, f |-> f, t |-> t, p |-> p, amt |-> amt, gl |-> gl, gp |-> gp, gu |-> 0, inc |-> FALSE, subs |-> <<>>, x |-> 0, c |-> "", id |-> ""]
+ATx(k, f, t, amt, gl, code, id) == [Tx(k, f, t, f, amt, gl, 1) EXCEPT !.c = code, !.id = id]
+Ample == 100000000
+MinGas == 21000     \* params.OrdinaryTxGas: with less gas left the miner stops trying
 
 (* ------------------------------------------------------------- what the processor packages *)
 AfterGas(b, t, a) == IF a = t.p THEN b.s.bal[a] - t.gl * t.gp ELSE b.s.bal[a]
+\* who may send an asset id: the processor demands the id's metadata in the sender's STABLE account, and only an issue
+\* transaction writes it (for its receiver) - in worlds whose scenario blocks stay unconfirmed these are the receivers
+\* of the setup chain's issue transactions (Ctx.meta); generator knowledge only, the monitor does not depend on it
+MaySend(a, id) == id \in DOMAIN Ctx.meta /\ a \in Ctx.meta[id]
 PlainValid(b, t) ==
   /\ b.s.bal[t.p] >= t.gl * t.gp /\ t.gl >= Gas[t.k]
   /\ CASE t.k = "xfer"  -> AfterGas(b, t, t.f) >= t.amt
@@ -53,54 +75,90 @@ PlainValid(b, t) ==
                                          \/ b.s.reg[t.f] = "no" /\ t.amt >= Ctx.mindep
        [] t.k = "unreg" -> b.s.reg[t.f] = "yes"
        [] t.k = "setrew" -> TRUE                      \* a refused precompile call is still packaged (and costs its gas)
-       [] t.k \in {"issue", "repl"} -> t.f = Ctx.issuer /\ t.amt > 0 /\ ~b.s.frz
-       [] t.k = "axfer" -> /\ ~b.s.frz /\ b.s.eq[t.f] > 0 /\ t.amt <= b.s.eq[t.f]
-                           /\ (t.amt >= 0 \/ "Dev_NegativeAssetTransfer" \in Devs)
-       [] t.k \in {"freeze", "unfreeze"} -> t.f = Ctx.issuer
+       [] t.k \in {"issue", "repl", "axfer", "freeze", "unfreeze"} ->
+            /\ ~Plain(Ctx, Devs, b, [t EXCEPT !.inc = TRUE]).bad          \* the rules of LedgerOps
+            /\ t.k = "axfer" => MaySend(t.f, t.id)
 Exec(t) == [t EXCEPT !.inc = TRUE, !.gu = Gas[t.k]]
-RECURSIVE SubsValid(_, _, _)
-SubsValid(b, q, i) == IF i > Len(q) THEN TRUE
-                      ELSE PlainValid(b, q[i]) /\ SubsValid(Plain(Ctx, Devs, b, Exec(q[i])), q, i + 1)
-Resolve(b, t) ==   \* fill in inc / gu as the processor would
-  IF t.k = "box"
-  THEN IF b.s.bal[t.p] >= t.gl * t.gp /\ t.gl >= Gas["box"]
-          /\ SubsValid(Charge(b, t.p, t.gl * t.gp), t.subs, 1)      \* conservative: the box's gas is still held while the subs run
-       THEN [t EXCEPT !.inc = TRUE, !.gu = Gas["box"] + Len(t.subs) * Gas["xfer"], !.subs = [i \in 1..Len(t.subs) |-> Exec(t.subs[i])]]
-       ELSE t
-  ELSE IF PlainValid(b, t) THEN Exec(t) ELSE t
+\* the sub transactions of a box, run one after the other on the state the box's own gas purchase left, each buying its
+\* gas limit from the pool: "ok", "bad" (an invalid one: the box is discarded), "full" (one does not fit into the block)
+RECURSIVE SubsRun(_, _, _, _)
+SubsRun(b, q, i, left) ==
+  IF i > Len(q) THEN [r |-> "ok", n |-> Len(q)]
+  ELSE IF b.s.bal[q[i].p] < q[i].gl * q[i].gp THEN [r |-> "bad", n |-> i - 1]
+  ELSE IF left < q[i].gl THEN [r |-> "full", n |-> i - 1]
+  ELSE IF ~PlainValid(b, q[i]) THEN [r |-> "bad", n |-> i - 1]
+  ELSE SubsRun(Plain(Ctx, Devs, b, Exec(q[i])), q, i + 1, left - Gas[q[i].k])
+\* what the miner does with candidate t when `left` gas is left in the block:
+\* r = "inc" (packaged), "bad" (discarded as invalid), "full" (does not fit: stays in the pool), "stop" (not tried any more);
+\* n = number of sub transactions that ran before a box was given up
+Resolve(b, t, left) ==
+  IF left < MinGas THEN [r |-> "stop", t |-> t, n |-> 0]
+  ELSE IF b.s.bal[t.p] < t.gl * t.gp THEN [r |-> "bad", t |-> t, n |-> 0]
+  ELSE IF left < t.gl THEN [r |-> "full", t |-> t, n |-> 0]
+  ELSE IF t.k = "box"
+  THEN IF t.gl < Gas["box"] THEN [r |-> "bad", t |-> t, n |-> 0]
+       ELSE LET sr == SubsRun(Charge(b, t.p, t.gl * t.gp), t.subs, 1, left - t.gl) IN     \* the box's gas is held while the subs run
+            IF sr.r = "ok"
+            THEN [r |-> "inc", n |-> sr.n,
+                  t |-> [t EXCEPT !.inc = TRUE, !.gu = Gas["box"] + Len(t.subs) * Gas["xfer"], !.subs = [i \in 1..Len(t.subs) |-> Exec(t.subs[i])]]]
+            ELSE [r |-> sr.r, t |-> t, n |-> sr.n]
+  ELSE IF PlainValid(b, t) THEN [r |-> "inc", t |-> Exec(t), n |-> 0] ELSE [r |-> "bad", t |-> t, n |-> 0]
+\* Mut_BlockFullKeepsPartialBox: the box that turned out not to fit is dropped, but its gas purchase and the n sub
+\* transactions that ran stay in the state (their fees reach nobody)
+PartialBox(b, t, n) ==
+  LET b1 == [b EXCEPT !.s.bal[t.p] = @ - t.gl * t.gp]
+      b2 == Subs(Ctx, Devs, b1, [i \in 1..n |-> Exec(t.subs[i])], 1)
+  IN [b2 EXCEPT !.fees = b.fees]
 
 \* Snapshot blocks are never scenario blocks (the election is C10 / C13's subject; the setup chain carries an empty one).
-Do(t0) == LET t == Resolve(blk, t0) IN
+Do(t0) == LET r == Resolve(blk, t0, gas.left)  t == r.t IN
           /\ nb < MaxBlk /\ ntx < MaxTx /\ ntot < MaxTot /\ t0.k \in Kinds /\ ~IsSnapshot(st, blk.h)
-          /\ blk' = ApplyTx(Ctx, Devs, blk, t) /\ ntx' = ntx + 1 /\ ntot' = ntot + 1 /\ last' = t /\ UNCHANGED <<st, nb>>
+          /\ blk' = IF r.r = "full" /\ t0.k = "box" /\ "Mut_BlockFullKeepsPartialBox" \in Devs THEN PartialBox(blk, t0, r.n)
+                    ELSE ApplyTx(Ctx, Devs, blk, t)
+          /\ gas' = IF t.inc THEN [gas EXCEPT !.left = @ - t.gu] ELSE gas
+          /\ ntx' = ntx + 1 /\ ntot' = ntot + 1 /\ last' = t /\ UNCHANGED <<st, nb>>
 
 GL(g, ok) == IF g = "low" THEN 20000 ELSE IF g = "high" THEN 60000 ELSE ok
 Transfer(f, t, a, p, g) == /\ (g = "ok" \/ (p = f /\ a = 100)) /\ (p = f \/ (p \in Payers /\ p # t))
-                           /\ Do(Tx("xfer", f, t, p, a * LEMO, GL(g, 30000), 1))
-Vote(v, x)          == "vote" \in Kinds /\ Do(Tx("vote", v, x, v, 0, 40000, 1))
-Register(x, a)      == st.reg[x] = "no" /\ Do(Tx("reg", x, "", x, a * LEMO, 130000, 1))
-TopUp(x, a)         == st.reg[x] # "no" /\ Do(Tx("topup", x, "", x, a * LEMO, 130000, 1))
-Unregister(x)       == "unreg" \in Kinds /\ Do(Tx("unreg", x, "", x, 0, 130000, 1))
-Issue(f, t, a)      == "issue" \in Kinds /\ f \in {Ctx.issuer, "a1"} /\ Do(Tx("issue", f, t, f, a, 100000, 1))
-Replenish(f, t, a)  == "repl" \in Kinds /\ f \in {Ctx.issuer, "a1"} /\ Do(Tx("repl", f, t, f, a, 100000, 1))
-AssetTransfer(f, t, a) == "axfer" \in Kinds /\ Do(Tx("axfer", f, t, f, a, 60000, 1))
-Freeze(f, v)        == "freeze" \in Kinds /\ Do(Tx(IF v THEN "freeze" ELSE "unfreeze", f, "", f, 0, 100000, 1))
-SetReward(f, k, a)  == "setrew" \in Kinds /\ Do([Tx("setrew", f, Ctx.rc, f, a * LEMO, 60000, 1) EXCEPT !.x = k])
+                           /\ Do(Tx("xfer", f, t, p, a * LEMO, GL(g, 30000), 1)) /\ UNCHANGED nf
+Vote(v, x)          == "vote" \in Kinds /\ Do(Tx("vote", v, x, v, 0, 40000, 1)) /\ UNCHANGED nf
+Register(x, a)      == st.reg[x] = "no" /\ Do(Tx("reg", x, "", x, a * LEMO, 130000, 1)) /\ UNCHANGED nf
+TopUp(x, a)         == st.reg[x] # "no" /\ Do(Tx("topup", x, "", x, a * LEMO, 130000, 1)) /\ UNCHANGED nf
+Unregister(x)       == "unreg" \in Kinds /\ Do(Tx("unreg", x, "", x, 0, 130000, 1)) /\ UNCHANGED nf
+\* the header of the block under construction names gas limit g (before the first candidate is tried)
+GasLimit(g)         == /\ nb < MaxBlk /\ ntx = 0 /\ gas.lim = 0 /\ ntot < MaxTot /\ ~IsSnapshot(st, blk.h)
+                       /\ gas' = [lim |-> g, left |-> g] /\ last' = NoTx /\ UNCHANGED <<st, blk, ntx, nb, ntot, nf>>
+\* the id an issue transaction credits: the token's one id, or (categories 2 / 3) a new id - the next fresh slot
+\* (the adapter counts the issue actions of a behaviour in the same way)
+FreshLeft == nf < Len(Ctx.fresh)
+IssueId(code)       == IF Ctx.assets[code].cat = 1 THEN code ELSE Ctx.fresh[nf + 1]
+Issue(f, t, a, code) == /\ "issue" \in Kinds /\ f \in {Ctx.issuer, "a1"} /\ (Ctx.assets[code].cat = 1 \/ FreshLeft)
+                        /\ Do(ATx("issue", f, t, a, 100000, code, IssueId(code)))
+                        /\ nf' = IF Ctx.assets[code].cat = 1 THEN nf ELSE nf + 1
+\* replenish names code and id: an id of that code, or (must be refused) an id of another code that the receiver holds
+Replenish(f, t, a, code, id) == /\ "repl" \in Kinds /\ f \in {Ctx.issuer, "a1"}
+                                /\ (blk.s.idc[id] = code \/ (blk.s.idc[id] # NONE /\ MaySend(t, id)))
+                                /\ Do(ATx("repl", f, t, a, 100000, code, id)) /\ UNCHANGED nf
+AssetTransfer(f, t, a, id) == "axfer" \in Kinds /\ blk.s.idc[id] # NONE /\ Do(ATx("axfer", f, t, a, 100000, "", id)) /\ UNCHANGED nf
+Freeze(f, v, code)  == "freeze" \in Kinds /\ Do(ATx(IF v THEN "freeze" ELSE "unfreeze", f, "", 0, 100000, code, "")) /\ UNCHANGED nf
+SetReward(f, k, a)  == "setrew" \in Kinds /\ Do([Tx("setrew", f, Ctx.rc, f, a * LEMO, 60000, 1) EXCEPT !.x = k]) /\ UNCHANGED nf
 Box(f, sf, stt, a, n, gp) ==
-  "box" \in Kinds /\ Do([Tx("box", f, "", f, 0, 100000, gp) EXCEPT !.subs = [i \in 1..n |-> Tx("xfer", sf, stt, sf, a * LEMO, 30000, 1)]])
+  "box" \in Kinds /\ Do([Tx("box", f, "", f, 0, 100000, gp) EXCEPT !.subs = [i \in 1..n |-> Tx("xfer", sf, stt, sf, a * LEMO, 30000, 1)]]) /\ UNCHANGED nf
 EndBlock == /\ nb < MaxBlk /\ (ntx > 0 \/ EmptyOK) /\ ~IsSnapshot(st, blk.h)
-            /\ st' = Finalize(Ctx, Devs, blk).s /\ blk' = Begin(st') /\ ntx' = 0 /\ nb' = nb + 1 /\ last' = NoTx /\ UNCHANGED ntot
+            /\ st' = Finalize(Ctx, Devs, blk).s /\ blk' = Begin(st') /\ ntx' = 0 /\ nb' = nb + 1 /\ last' = NoTx
+            /\ gas' = [lim |-> 0, left |-> Ample] /\ UNCHANGED <<ntot, nf>>
 
-Init == st = Init0 /\ blk = Begin(Init0) /\ ntx = 0 /\ nb = 0 /\ ntot = 0 /\ last = NoTx
+Init == st = Init0 /\ blk = Begin(Init0) /\ ntx = 0 /\ nb = 0 /\ ntot = 0 /\ last = NoTx /\ gas = [lim |-> 0, left |-> Ample] /\ nf = 0
 Next == \/ \E f \in From, t \in XTo, a \in XAmt, p \in Payers \cup From, g \in {"ok", "low"} : Transfer(f, t, a, p, g)
         \/ \E v \in Voters, x \in Cands : Vote(v, x)
         \/ \E x \in Cands, a \in RegAmt : Register(x, a)
         \/ \E x \in Cands, a \in RegAmt : TopUp(x, a)
         \/ \E x \in Cands : Unregister(x)
-        \/ \E f \in AFrom, t \in ATo, a \in IAmt : Issue(f, t, a)
-        \/ \E f \in AFrom, t \in ATo, a \in IAmt : Replenish(f, t, a)
-        \/ \E f \in AFrom, t \in ATo, a \in AAmt : AssetTransfer(f, t, a)
-        \/ \E f \in AFrom, v \in BOOLEAN : Freeze(f, v)
+        \/ \E f \in AFrom, t \in ATo, a \in IAmt, code \in ACodes : Issue(f, t, a, code)
+        \/ \E f \in AFrom, t \in ATo, a \in IAmt, code \in ACodes, id \in AIds : Replenish(f, t, a, code, id)
+        \/ \E f \in AFrom, t \in ATo, a \in AAmt, id \in AIds : AssetTransfer(f, t, a, id)
+        \/ \E f \in AFrom, v \in BOOLEAN, code \in ACodes : Freeze(f, v, code)
+        \/ \E g \in BGL : GasLimit(g)
         \/ \E f \in RewFrom, k \in RewTerms, a \in RewAmt : SetReward(f, k, a)
         \/ \E f \in BoxFrom, sf \in BoxTo, t \in BoxTo, a \in XAmt, n \in 1..2, gp \in {2} : Box(f, sf, t, a, n, gp)
         \/ EndBlock
@@ -127,14 +185,29 @@ NotIncludedIsFree == [][(ntx' = ntx + 1 /\ ~last'.inc) => blk' = blk]_vars
 (* ------------------------------------------------------------- C11 *)
 VotesAtBoundary == ntx = 0 => VotesOK(Ctx, st)
 (* ------------------------------------------------------------- C12 *)
-SupplyEqualsEquity == SupplyOK(blk.s)
+SupplyEqualsEquity == SupplyOK(Ctx, blk.s)
 NothingForbiddenIncluded == ~blk.bad
-OnlyOwnEquityDecreases == [][\A a \in DOMAIN blk.s.eq : blk'.s.eq[a] < blk.s.eq[a] =>
-                               (last'.k = "axfer" /\ last'.inc /\ last'.f = a /\ last'.amt >= blk.s.eq[a] - blk'.s.eq[a])]_vars
+Divisible(s, i) == s.idc[i] # NONE /\ Ctx.assets[s.idc[i]].div
+\* somebody's equity under some id decreases only by that holder's own packaged transfer of that id, by no more than the
+\* amount named (an indivisible id: the whole of it)
+OnlyOwnEquityDecreases ==
+  [][\A i \in DOMAIN blk.s.eq : \A a \in DOMAIN blk.s.eq[i] : blk'.s.eq[i][a] < blk.s.eq[i][a] =>
+        /\ last'.k = "axfer" /\ last'.inc /\ last'.f = a /\ last'.id = i
+        /\ IF Divisible(blk.s, i) THEN last'.amt >= blk.s.eq[i][a] - blk'.s.eq[i][a] ELSE blk'.s.eq[i][a] = 0]_vars
+\* the recorded supply of a code changes only by its issuer's issue / replenish of a positive amount (an indivisible
+\* asset: by one id) and by a holder destroying its own equity under one of the code's ids
 SupplyChangesOnlyByIssuerOrHolder ==
-  [][blk'.s.sup # blk.s.sup =>
-       \/ last'.k \in {"issue", "repl"} /\ last'.f = Ctx.issuer /\ last'.amt > 0 /\ blk'.s.sup = blk.s.sup + last'.amt
-       \/ last'.k = "axfer" /\ last'.t = Ctx.zero /\ last'.amt > 0 /\ blk'.s.sup = blk.s.sup - last'.amt
-                            /\ blk'.s.eq[last'.f] = blk.s.eq[last'.f] - last'.amt]_vars
-FrozenDoesNotMove == [][(blk.s.frz /\ blk'.s.frz) => (blk'.s.eq = blk.s.eq /\ blk'.s.sup = blk.s.sup)]_vars
+  [][\A code \in DOMAIN Ctx.assets : blk'.s.sup[code] # blk.s.sup[code] =>
+       LET div == Ctx.assets[code].div IN
+       \/ /\ last'.k \in {"issue", "repl"} /\ last'.c = code /\ last'.f = Ctx.assets[code].iss /\ last'.amt > 0
+          /\ blk'.s.sup[code] = blk.s.sup[code] + (IF div THEN last'.amt ELSE 1)
+       \/ /\ last'.k = "axfer" /\ last'.t = Ctx.zero /\ last'.amt > 0 /\ blk.s.idc[last'.id] = code
+          /\ LET n == blk.s.eq[last'.id][last'.f] - blk'.s.eq[last'.id][last'.f] IN
+             /\ n > 0 /\ blk'.s.sup[code] = blk.s.sup[code] - (IF div THEN n ELSE 1)
+             /\ IF div THEN n = last'.amt ELSE blk'.s.eq[last'.id][last'.f] = 0]_vars
+\* while a code stays frozen neither its supply nor anybody's equity under any of its ids changes, and it gets no new id
+FrozenDoesNotMove ==
+  [][\A code \in DOMAIN Ctx.assets : (blk.s.frz[code] /\ blk'.s.frz[code]) =>
+       /\ blk'.s.sup[code] = blk.s.sup[code] /\ IdsOf(blk'.s, code) = IdsOf(blk.s, code)
+       /\ \A i \in IdsOf(blk.s, code) : blk'.s.eq[i] = blk.s.eq[i]]_vars
 ====
